@@ -32,3 +32,9 @@ Fixpoint shifts_eqb (a b : list N) : bool :=
 
 Definition split_ok (parts : list fpart) (reader_shifts : list N) : bool :=
   parts_from 0 parts && shifts_eqb (map fst parts) reader_shifts.
+
+(** * A boolean stored as one of two integer codes ([detail_type = 3 if prop.is_cross else 2], read back as
+    [detail_type == 3]): code written for True, code written for False, code the reader compares with. *)
+Definition bool_code_ok (c : N * N * N) : bool := let '(wt, wf, rc) := c in (wt =? rc) && negb (wf =? rc).
+Definition bool_code_write (c : N * N * N) (b : bool) : N := let '(wt, wf, _) := c in if b then wt else wf.
+Definition bool_code_read (c : N * N * N) (x : N) : bool := let '(_, _, rc) := c in x =? rc.
